@@ -20,7 +20,7 @@ ASSUMPTIONS = ['text-only definitions have no deepest element: no >b pair for th
                'user tables reference only their own names, so the nesting bound is the number of user snippets',
                'termination decided on logical steps (20M line events)']
 FLOORS = {'quick': {'builtin-pair': 6000, 'multi-top-pair': 150, 'user-table': 4000, 'user-chain-pair': 1500, 'sibling-pair': 20000}, 'thorough': {'builtin-pair': 6000, 'multi-top-pair': 150, 'user-table': 180000, 'user-chain-pair': 100000, 'sibling-pair': 500000}}
-REQUIRED_MONITORS = ['oracle:alias-equals-definition', 'oracle:multi-top', 'oracle:context-independent', 'termination:bounded', 'probe:resolve-depth']
+REQUIRED_MONITORS = ['oracle:alias-equals-definition', 'oracle:multi-top', 'oracle:alias-repeater-governs', 'oracle:context-independent', 'termination:bounded', 'probe:resolve-depth']
 SYNTAXES = ['html', 'xsl', 'pug', 'jsx', 'xml', 'haml', 'slim']
 NTABLES = {'quick': 700, 'thorough': 12000}
 
@@ -320,6 +320,24 @@ def run_shard(desc, ctx):
                             mon.pair('chain:' + label, a, dd, {'syntax': 'html' if label == 'repeat-lorem' else rng.choice(['html', 'pug']), 'snippets': tbl},
                                      'user-chain-pair', 'oracle:alias-equals-definition')
         elif desc['kind'] == 'multi':
+            # a repeater written on the alias governs the top-level elements of the definition - also when they carry a repeater of their own.
+            # Observable through lorem alone: the fixed opening words appear in the copies of the FIRST alias repetition, and only there
+            tbl = {'lp2': 'p*2>lorem6', 'g2': '(p>lorem6)*2', 'lp': 'p>lorem6', 'two': 'p>lorem6^p>lorem6', 'lq3': 'p*3>lorem5'}
+            for ab, per_copy, copies in [('lp2*2', 2, 2), ('g2*3', 2, 3), ('lp*3', 1, 3), ('two*2', 2, 2), ('ul>lp2*2', 2, 2), ('lq3*2', 3, 2), ('(lp2*2)+x-e', 2, 2), ('lp2*2>b', 2, 2)]:
+                for syntax in ('html', 'xml', 'jsx'):
+                    ctx.ev('alias-repeat-lorem')
+                    ctx.mon('oracle:alias-repeater-governs')
+                    r = core.call(mon.expand, ab, {'syntax': syntax, 'snippets': tbl, 'options': {'output.format': False}})
+                    case = {'alias-repeat-lorem': True, 'abbr': ab, 'table': tbl, 'config': {'syntax': syntax}}
+                    if r[0] == 'exc':
+                        ctx.violation('exception', case, {'exc': list(core.exc_site(r[1]))})
+                        continue
+                    flags = [re.sub(r'[^a-z ]', '', x.lower()).split()[:2] == ['lorem', 'ipsum'] for x in re.findall(r'<p>(?:<b>)?([^<]*)<', r[1])]
+                    want = [True] * per_copy + [False] * (per_copy * (copies - 1))
+                    if flags != want:
+                        ctx.violation('alias-repeater-not-applied', case, {'opens_with_fixed_words': flags, 'expected': want, 'output': r[1][:200]})
+                    else:
+                        ctx.seen(('alias-repeat-lorem', ab, syntax))
             for syntax in SYNTAXES:
                 for a, d in MULTI_PAIRS:
                     mon.pair('multi-top', a, d, {'syntax': syntax, 'snippets': dict(MULTI)}, 'multi-top-pair', 'oracle:multi-top')
